@@ -185,7 +185,7 @@ def check_props_file(pid, allow_axioms):
     # property files contain only statements closed by `exact`
     for body in re.findall(r"\bProof\.(.*?)\b(?:Qed|Defined)\.", src, re.S):
         b = body.strip()
-        if not (re.fullmatch(r"exact\b.*\.", b, re.S) or re.fullmatch(r"vm_compute\.\s*(repeat split|reflexivity|repeat eexists|split; reflexivity)\.", b)):
+        if not (re.fullmatch(r"exact\b.*\.", b, re.S) or re.fullmatch(r"vm_compute\.(\s*(repeat|split|reflexivity|eexists|exact I|[\[\];|.]))*", b)):
             res["failures"].append(f"{rel}: proof body is not a single `exact`: {b[:60]!r}")
     missing = [t for t in thms if t not in printed]
     if missing:
